@@ -24,6 +24,7 @@ type Query struct {
 	Text   string
 	Params map[string]string // parameter name -> SMT constant holding its entry value
 	Observe []obsTerm        // terms whose model values describe the slice / map arguments (replay)
+	BrokenPath bool          // the path passed a loop head whose invariants could not all be evaluated
 	Weak   bool              // the path passed a loop head without invariants: a model need not be a reachable state
 	Broken string            // the contract clause cannot be evaluated on this tree (it names something that is gone): never discharged
 }
@@ -37,6 +38,9 @@ type obsTerm struct {
 type Exec struct {
 	observe []obsTerm
 	inlinedKeys []string
+	ownLoops int // number of loops in the function under verification itself
+	topSpec *FuncSpec // its contract (x.spec is swapped while a callee is executed inline)
+	adopted map[ast.Stmt]int // loops of inlined helpers that took over an unmatched loop contract
 	curInlineKey string // key of the function whose body is being executed inline (event filters "in f")
 	w     *World
 	sp    *Specs
@@ -440,6 +444,7 @@ func (x *Exec) oblige(st *State, kind, name string, tags []string, goal string) 
 	q.PC = st.pc[:len(st.pc):len(st.pc)]
 	q.Trail = st.trail[:len(st.trail):len(st.trail)]
 	q.Weak = st.weak
+	q.BrokenPath = st.brokenInv
 	x.qs = append(x.qs, q)
 	// afterwards the fact may be used - except for postconditions, which are checked
 	// independently of each other (a failing one must not mask the next)
